@@ -1210,6 +1210,40 @@ fn write_session(frames: Vec<(u16, u8, Vec<u8>)>, script: Vec<WriteAct>, default
     }
 }
 
+/// `n` frames of 255 data bytes (523 bytes each on the wire) written to a sink that only counts.
+fn volume_of_writes(n: usize, shard: usize, rep: &mut Report) {
+    struct Counting(u64);
+    impl std::io::Write for Counting {
+        fn write(&mut self, buf: &[u8]) -> std::io::Result<usize> {
+            self.0 += buf.len() as u64;
+            Ok(buf.len())
+        }
+        fn flush(&mut self) -> std::io::Result<()> {
+            Ok(())
+        }
+    }
+    let data: Vec<u8> = (0..255usize).map(|i| (i * 7 + shard) as u8).collect();
+    let frame = Frame::new(Address(shard as u16), MsgType(0x7D), Data::try_new(data).expect("255"));
+    let mut sink = Counting(0);
+    let mut trouble: Option<String> = None;
+    for i in 0..n {
+        let before = sink.0;
+        match catch(std::panic::AssertUnwindSafe(|| frame.write(&mut sink).map_err(|e| e.to_string()))) {
+            Ok(Ok(())) if sink.0 - before == 523 => {}
+            Ok(Ok(())) => trouble = Some(format!("write #{} of the shard delivered {} bytes, the line has 523", i, sink.0 - before)),
+            Ok(Err(e)) => trouble = Some(format!("write #{} of the shard failed: {}", i, e)),
+            Err(p) => trouble = Some(format!("write #{} of the shard panicked: {} at {}", i, p.msg, short_loc(&p.loc))),
+        }
+        if trouble.is_some() {
+            break;
+        }
+    }
+    rep.add("bytes_written_in_the_volume_run", sink.0);
+    if let Some(t) = trouble {
+        rep.violation(MON_W, "write_goes_wrong_after_a_large_volume", "volume", format!("more than 2^32 bytes through Frame::write in one process (64 shards x {} frames of 523 bytes): {}", n, t), J::obj(vec![("workload", J::s("volume of writes")), ("shard", J::us(shard)), ("observed", J::s(t.clone()))]));
+    }
+}
+
 /// One reader, one sink, one thread, and far more frames than any counter narrower than 32 bits can count: line i of the
 /// stream must come back as frame i, with the stream exactly at the end of line i, for all 70 000 (more than 2^16) lines;
 /// and the i-th write must put exactly the encoding of frame i into the sink.
@@ -1289,6 +1323,12 @@ pub fn run(ctx: &Ctx) -> Outcome {
             marathon(rep);
         } else {
             let mut rng = ctx.rng("rand", (shard - 4) as u64);
+            if !ctx.quick() {
+                // volume (thorough tier): the 64 shards together push more than 2^32 bytes through Frame::write in this one
+                // process — whatever the library may tally per process, per thread or per sink, the last frame is written
+                // like the first
+                volume_of_writes(135_000, shard, rep);
+            }
             for _ in 0..n_rand / shards as u64 {
                 random_read_case(&mut rng, rep);
             }
@@ -1332,6 +1372,7 @@ pub fn run(ctx: &Ctx) -> Outcome {
         floor("the standard library's readers and adaptors (slice, cursors, buffered readers, chains cut at every position, take) around streams of 2..5 lines", report.get("std_reader_rounds_ok") == 12, report.get("std_reader_rounds_ok")),
         floor("sinks and streams that panic in the middle of a call, then ordinary writes and reads on the same thread", report.get("sinks_and_streams_that_panicked") >= 30, report.get("sinks_and_streams_that_panicked")),
         floor("a frame of every data length read (line with and without CR LF), then a frame one or two bytes shorter / longer / as long written on the same thread", report.get("writes_right_after_a_read_of_a_neighbouring_length") == 2 * (256 * 5 - 6), report.get("writes_right_after_a_read_of_a_neighbouring_length")),
+        floor("thorough tier: more than 2^32 bytes through Frame::write in one process", ctx.quick() || report.get("bytes_written_in_the_volume_run") > (1u64 << 32), report.get("bytes_written_in_the_volume_run")),
         floor("frames read from lines in every accepted spelling and written out again at once on the same thread", report.get("frames_relayed") == 120, report.get("frames_relayed")),
         floor("gathering sinks and first-slice-only sinks", report.get("sinks/gathering") > 1000 && report.get("sinks/first_slice_only") > 1000, report.get("sinks/gathering")),
         floor("write failures surfaced and complete writes both observed", report.get("write_failures_surfaced") > 0 && report.get("writes_ok_complete") > 0, report.get("write_failures_surfaced")),
